@@ -309,6 +309,105 @@ static void run_matrix(void) {
     vf_stat("foreign_getter_calls", 2 * 2 * 300 * 4);
 }
 
+/* ---------------- task completion stays inside its context (mode 3) ----------------
+ * Context A registers a task, and pauses the task's module while the task function is still running (the source leaves the
+ * poll set: its notification descriptor is closed).  Context B, on another thread, then registers a task of its own (opening a
+ * descriptor, most likely with the number A's had).  A's function returns first.  B must see exactly one task event, after ITS
+ * function returned and carrying ITS return value.  (ASan/plain builds only: a task thread racing with the pause of its own
+ * module is the recorded finding task-outlives-its-source, not a question of context independence.) */
+#include <semaphore.h>
+static sem_t ch_b_start, ch_a_finish, ch_a_go, ch_b_go, ch_b_done;
+static atomic_int ch_b_fn_returned, ch_fail;
+static int ch_a_events, ch_b_events, ch_b_premature, ch_b_retval, ch_a_retval;
+static atomic_int ch_a_runs;
+/* (the function is started again when its paused module is resumed: only the first run waits) */
+static int ch_fn_a(void *arg) { (void)arg; if (ch_a_runs++ == 0) sem_wait(&ch_a_go); return 7; }
+static int ch_fn_b(void *arg) { (void)arg; sem_wait(&ch_b_go); ch_b_fn_returned = 1; return 9; }
+static void ch_evt_a(m_mod_t *m, const m_queue_t *const q) {
+    (void)m;
+    for (m_queue_itr_t *it = m_queue_itr_new(q); it; m_queue_itr_next(&it)) {
+        const m_evt_t *e = m_queue_itr_get_data(it);
+        if (e->type == M_SRC_TYPE_TASK) { ch_a_events++; ch_a_retval = e->task_evt->retval; }
+    }
+}
+static void ch_evt_b(m_mod_t *m, const m_queue_t *const q) {
+    (void)m;
+    for (m_queue_itr_t *it = m_queue_itr_new(q); it; m_queue_itr_next(&it)) {
+        const m_evt_t *e = m_queue_itr_get_data(it);
+        if (e->type == M_SRC_TYPE_TASK) { ch_b_events++; ch_b_retval = e->task_evt->retval; if (!ch_b_fn_returned) ch_b_premature++; }
+    }
+}
+static void ch_sleep_us(long us) { struct timespec ts = { us / 1000000, (us % 1000000) * 1000L }; nanosleep(&ts, NULL); }
+static void *ch_thread_a(void *arg) {
+    (void)arg;
+    m_mod_t *a = NULL, *keep = NULL;
+    m_mod_hook_t hk = { NULL, NULL, ch_evt_a, NULL }, hn = { NULL, NULL, evt_noop, NULL };
+    if (m_ctx_register("chA", 0, NULL) != 0 || m_mod_register("a", &a, &hk, 0, NULL) != 0 || m_mod_register("keep", &keep, &hn, 0, NULL) != 0) { printf("FAIL HARNESS/choreo-setup | A\n"); ch_fail++; sem_post(&ch_b_start); sem_post(&ch_a_go); return NULL; }
+    m_ctx_set_logger(null_logger);
+    m_mod_start(a); m_mod_start(keep);
+    m_ctx_dispatch();
+    m_src_task_t tk = { 1, ch_fn_a };
+    int r1 = m_mod_src_register_task(a, &tk, 0, NULL);
+    m_ctx_dispatch();
+    int r2 = m_mod_pause(a);               /* the task source leaves the poll set while its function is still running */
+    if (r1 != 0 || r2 != 0) { printf("FAIL HARNESS/choreo-setup | A task %d pause %d\n", r1, r2); ch_fail++; }
+    sem_post(&ch_b_start);
+    sem_wait(&ch_a_finish);                /* B has registered its task by now */
+    sem_post(&ch_a_go);                    /* A's function returns: its completion is notified ... to whom? */
+    ch_sleep_us(3000);
+    sem_wait(&ch_b_done);
+    m_mod_resume(a);
+    for (int i = 0; i < 5; i++) { m_ctx_dispatch(); ch_sleep_us(200); }
+    m_ctx_quit(0); m_ctx_dispatch();
+    m_mod_deregister(&a); m_mod_deregister(&keep);
+    m_ctx_deregister();
+    return NULL;
+}
+static void *ch_thread_b(void *arg) {
+    (void)arg;
+    m_mod_t *b = NULL;
+    m_mod_hook_t hk = { NULL, NULL, ch_evt_b, NULL };
+    if (m_ctx_register("chB", 0, NULL) != 0 || m_mod_register("b", &b, &hk, 0, NULL) != 0) { printf("FAIL HARNESS/choreo-setup | B\n"); ch_fail++; sem_post(&ch_a_finish); sem_post(&ch_b_done); sem_post(&ch_b_go); return NULL; }
+    m_ctx_set_logger(null_logger);
+    m_mod_start(b);
+    m_ctx_dispatch();
+    sem_wait(&ch_b_start);
+    m_src_task_t tk = { 2, ch_fn_b };
+    int r = m_mod_src_register_task(b, &tk, 0, NULL);
+    if (r != 0) { printf("FAIL HARNESS/choreo-setup | B task %d\n", r); ch_fail++; }
+    sem_post(&ch_a_finish);
+    for (int i = 0; i < 24; i++) { m_ctx_dispatch(); ch_sleep_us(250); }      /* ~6 ms: A's function has returned meanwhile, B's has not */
+    sem_post(&ch_b_go);
+    for (int i = 0; i < 8000 && ch_b_events == 0; i++) { m_ctx_dispatch(); ch_sleep_us(250); }     /* (up to 2 s on a loaded machine) */
+    for (int i = 0; i < 4; i++) { m_ctx_dispatch(); ch_sleep_us(250); }
+    sem_post(&ch_b_done);
+    m_ctx_quit(0); m_ctx_dispatch();
+    m_mod_deregister(&b);
+    m_ctx_deregister();
+    return NULL;
+}
+static int run_choreo(int rounds) {
+    int bad = 0, clean = 0, late = 0;
+    for (int k = 0; k < rounds; k++) {
+        sem_init(&ch_b_start, 0, 0); sem_init(&ch_a_finish, 0, 0); sem_init(&ch_a_go, 0, 0); sem_init(&ch_b_go, 0, 0); sem_init(&ch_b_done, 0, 0);
+        ch_b_fn_returned = 0; ch_a_runs = 0; ch_a_events = ch_b_events = ch_b_premature = 0; ch_b_retval = ch_a_retval = -1;
+        pthread_t ta, tb;
+        pthread_create(&ta, NULL, ch_thread_a, NULL); pthread_create(&tb, NULL, ch_thread_b, NULL);
+        pthread_join(tb, NULL); pthread_join(ta, NULL);
+        if (ch_fail) return 2;
+        if (!ch_b_premature && ch_b_events == 0) { late++; continue; }      /* B's own event did not make it in time: no verdict */
+        if (ch_b_premature || ch_b_events != 1 || ch_b_retval != 9) {
+            bad++;
+            printf("FAIL C14/foreign-task-completion | round %d: context B registered one task returning 9 and saw %d task event(s), %d of them before its task function had returned, last return value %d: the completion of a task of context A (whose module was paused while the task ran) was notified to context B\n", k, ch_b_events, ch_b_premature, ch_b_retval);
+        } else clean++;
+    }
+    vf_stat("choreographed_task_rounds", rounds);
+    vf_stat("choreographed_task_rounds_clean", clean);
+    vf_stat("choreographed_task_rounds_without_verdict", late);
+    printf("SIG %016llx\n", (unsigned long long)(0xc14c14ULL + rounds));
+    return bad ? 1 : 0;
+}
+
 int main(int argc, char **argv) {
     uint64_t seed = argc > 1 ? strtoull(argv[1], NULL, 0) : 1;
     int nt = argc > 2 ? atoi(argv[2]) : 4;
@@ -318,6 +417,7 @@ int main(int argc, char **argv) {
     signal(SIGPIPE, SIG_IGN);
     if (nt > MAXT) nt = MAXT;
     if (mode == 2) { run_matrix(); return matrix_fail ? 1 : 0; }
+    if (mode == 3) return run_choreo(steps);
     pthread_t th[MAXT];
     for (int i = 0; i < nt; i++) { memset(&T[i], 0, sizeof(T[i])); T[i].id = i; T[i].seed = seed * 7919 + 31 * i + 1; T[i].steps = steps; }
     if (mode == 0) {
